@@ -286,7 +286,7 @@ func c07Case(r *mon.Run, idx int64, childHashes []map[int64]string) {
 func runC07(r *mon.Run) {
 	r.SetRule("recipes (pure functions of a seed) rich in maps: Dicts whose keys/values hold qualified identifiers competing for aliases, nested Dicts, struct Tags of 2-8 keys, ImportNames/Anon tables with 2-30 imports, import scenarios, Dicts with render-identical keys; each recipe is built and rendered K=96 times (smallest map <=3 entries) or 32 times in-process and once in each of P child processes; non-trivial = smallest map has >=2 entries; distinct by recipe text")
 	r.Assume("map iteration orders cannot be forced from outside; the evidence reports the orders jennifer's own loops were observed to take (probe keys)")
-	n := r.Pick(300, 3000)
+	n := r.Pick(300, 12000)
 	procs := r.Pick(4, 16)
 	// children first (they run in parallel with nothing else), then the in-process builds
 	childHashes := make([]map[int64]string, procs)
